@@ -10,6 +10,8 @@ claimed={
               note="Outside: >3 plugins, >2 items, responses that set one item twice (A-WF). 'never blamed for a field it did not set' is decided only through the no-error verdict, not through the error text.", ref="5 C02"),
  "C05": dict(text="The real collect*Result / apply / *ContainerResponse code is compared entry by entry and field by field with a reference fold written from the statement (one entry per distinct target in first-touch order, own container last for update requests - placeholder if unchanged else runtime request overlaid -, exactly the set fields, update of the container under creation fails, conflicting ignore-failure update dropped whole). Symbolic: target ids (all equal/unequal patterns), presence and values of the active scalar fields, ignore-failure flags, pre-populated update request. Bounds: 2 plugins x 1 update (quick) / 1+2 updates and 3 plugins (thorough); 18 scalar resource fields singly and in 18 pairs; create/update/stop requests.",
               note="Outside: >2 simultaneously active fields per instance (other fields are checked to stay unset), hugepage/unified entries in updates (conflicts on them are decided under C01/C02), a plugin setting the same field of the same target twice (A-WF), device-cgroup rules of the runtime request (Copy() does not carry them; see DESIGN F9).", ref="5 C05"),
+ "C14": dict(text="Round trips NRI->OCI->NRI and OCI->NRI->OCI of resources (13 optional scalars in all/none/exactly-one/all-but-one presence patterns with full-width symbolic values, cpuset strings, <=2 hugepage limits, <=2 unified keys, pids, <=2 device-cgroup rules), mounts (<=2, <=2 options), devices (optional mode/uid/gid), hooks (6 stages, <=2 args/env, optional timeout), env (any key without '='); Copy(): field equality and heap disjointness computed on the engine's heap (reachable pointer/slice/map objects of original and copy do not intersect); all optional constructors for nil pointer / value / pointer-to-value with full-width symbolic values; event-mask print/parse for all 8191 valid non-empty masks (the printer forks per bit: exhaustive path enumeration, each printed string is concrete and goes through the real parser).",
+              note="Outside: >2 elements per list; LinuxResources.Copy() does not carry Devices (not in the property's list); FromOCILinuxResources ignores BlockIO/RDT (no OCI counterpart in this API).", ref="5 C14"),
 }
 NA_DEFAULT="check not built yet in this session (engine exists; harness for this property pending)"
 na={}
